@@ -94,6 +94,7 @@ fn row_line(cls: &str, day: i64, v: &Vals) -> String {
         "sfla" => line("FOO", &td, &sd, "SfLA", "1", &n(&v.lo), "", "", "", "", "", ""),
         "split" => line("FOO", &td, &sd, "Split", "", "", "", "", "", "", "2-for-1", ""),
         "split-rev" => line("FOO", &td, &sd, "Split", "", "", "", "", "", "", "1-for-3", ""),
+        "split-third" => line("FOO", &td, &sd, "Split", "", "", "", "", "", "", "1.0-for-3.0", ""),
         "year-1900" => line("FOO", "1900-01-02", "1900-01-04", "Buy", &n(&v.s), &n(&v.p), &n(&v.c), "CAD", "", "", "", ""),
         "year-2100" => line("FOO", "2100-12-28", "2100-12-30", "Sell", &n(&third), &n(&v.p), &n(&v.c), "CAD", "", "", "", ""),
         // ---- rows that are refused when the file is read (attributed to file and row)
@@ -187,6 +188,10 @@ fn opening_args(cls: &str, v: &Vals) -> Vec<String> {
         "other-sec" => vec!["QUX:5:50".into()],
         "two-fields" => vec!["FOO:10".into()],
         "four-fields" => vec!["FOO:10:100:1".into()],
+        "six-fields" => vec!["BAR:5:50:FOO:20:100".into()],
+        "prefix-field" => vec!["TSX:FOO:20:100".into()],
+        "empty-leading" => vec![":FOO:20:100".into()],
+        "trailing-colon" => vec!["FOO:20:100:".into()],
         "empty-symbol" => vec![":10:100".into()],
         "bad-shares" => vec!["FOO:x:100".into()],
         "bad-acb" => vec!["FOO:10:1e".into()],
@@ -348,8 +353,8 @@ pub fn fe_record(case: &Value, n: u64, scratch: &Path) -> Value {
     rec
 }
 
-const VALID_ROWS: [&str; 20] = ["buy", "buy-hi", "buy-usd", "buy-af", "buy-reg", "buy-bar", "sell-gain", "sell-loss", "sell-loss-third", "sell-usd", "sell-all", "sell-af",
-    "sell-sfl", "sell-sfl-forced", "roc", "sfla", "split", "split-rev", "oversell", "roc-none"];
+const VALID_ROWS: [&str; 21] = ["buy", "buy-hi", "buy-usd", "buy-af", "buy-reg", "buy-bar", "sell-gain", "sell-loss", "sell-loss-third", "sell-usd", "sell-all", "sell-af",
+    "sell-sfl", "sell-sfl-forced", "roc", "sfla", "split", "split-rev", "oversell", "roc-none", "split-third"];
 const VAL_CLASSES: [&str; 7] = ["plain", "max", "maxdeep", "tiny", "deep", "mixed", "thirds"];
 
 /// seeded random inputs: (a) longer products of valid row classes over every value class and option
